@@ -357,7 +357,7 @@ theorem step_payloads (l : Bool) (s : Noir.Start.State) (h : s.missingTerm ≠ 0
   cases e with
   | item v => simp only [Noir.Start.step, h, if_false]; cases s.pending <;> simp [payloads]
   | ts v t => simp only [Noir.Start.step, h, if_false]; cases s.pending <;> simp [payloads]
-  | flushBatch => simp [Noir.Start.step, h]
+  | flushBatch => simp only [Noir.Start.step, h, if_false]; cases s.pending <;> simp [payloads]
   | wm t =>
     simp only [Noir.Start.step, h, if_false]
     cases (s.frontier.update r t).2 <;> simp [payloads]
@@ -458,6 +458,50 @@ theorem select_conserves (st : State α) (hl : st.left.cached = false) (hr : st.
     have := selectRecv_conserves (prepare st) hpl hpr
     exact ⟨this.lc, this.rc, by rw [this.left, hql], by rw [this.right, hqr]⟩
 
+theorem selectRecv_start (st : State α) : (selectRecv st).1.start = st.start := by
+  unfold selectRecv
+  split
+  · simp
+  · split
+    · simp
+    · split
+      · split <;> simp
+      · simp
+      · simp
+      · rfl
+
+theorem select_start (st : State α) : (select st).1.start = st.start := by
+  have hp : (prepare st).start = st.start := by unfold prepare; split <;> rfl
+  unfold select
+  split
+  · rfl
+  · rw [← hp]
+    unfold selectBody
+    split
+    · split <;> simp
+    · split
+      · rfl
+      · split
+        · rfl
+        · exact selectRecv_start _
+
+/-- the protocol's receive timeout: `Start` lets a pending watermark announcement out before the fake
+    `FlushBatch` (which is not part of the model's output) and changes nothing else -/
+theorem step_timeout {β : Type} (s : Noir.Start.State) (h : s.missingTerm ≠ 0) :
+    (Noir.Start.step s (Noir.Start.Arrival.timeout : Noir.Start.Arrival β)).1.n = s.n
+    ∧ (Noir.Start.step s (Noir.Start.Arrival.timeout : Noir.Start.Arrival β)).1.missingFar = s.missingFar
+    ∧ (Noir.Start.step s (Noir.Start.Arrival.timeout : Noir.Start.Arrival β)).1.missingTerm = s.missingTerm
+    ∧ ((s.pending = none
+          ∧ (Noir.Start.step s (Noir.Start.Arrival.timeout : Noir.Start.Arrival β)).1 = s
+          ∧ (Noir.Start.step s (Noir.Start.Arrival.timeout : Noir.Start.Arrival β)).2.dropLast = [])
+        ∨ (∃ p, s.pending = some p
+          ∧ (Noir.Start.step s (Noir.Start.Arrival.timeout : Noir.Start.Arrival β)).1.pending = none
+          ∧ (Noir.Start.step s (Noir.Start.Arrival.timeout : Noir.Start.Arrival β)).2.dropLast = [Elem.wm p])) := by
+  simp only [Noir.Start.step, h, if_false]
+  cases hp : s.pending with
+  | none => simp
+  | some p => simp
+
 theorem pump_conserves : ∀ (fuel : Nat) (st : State α), st.left.cached = false → st.right.cached = false →
     (pump fuel st).2.2.2 ≠ .done →
     payloads true (pump fuel st).2.1 ++ pendL (pump fuel st).1 = pendL st
@@ -483,7 +527,14 @@ theorem pump_conserves : ∀ (fuel : Nat) (st : State α), st.left.cached = fals
         · exact ⟨by simpa [payloads] using hL, by simpa [payloads] using hR⟩
         · split
           · exact ⟨by simpa [payloads, pendL] using hL, by simpa [payloads, pendR] using hR⟩
-          · exact ⟨by simpa [payloads, pendL] using hL, by simpa [payloads, pendR] using hR⟩
+          · have hlive' : (select st).1.start.missingTerm ≠ 0 := by rw [select_start]; exact hlive
+            obtain ⟨_, _, _, ht⟩ := step_timeout (β := Bin α) (select st).1.start hlive'
+            have hpay : ∀ l, payloads l (Noir.Start.step (select st).1.start
+                (Noir.Start.Arrival.timeout : Noir.Start.Arrival (Bin α))).2.dropLast = [] := by
+              intro l
+              rcases ht with ⟨_, _, e⟩ | ⟨p, _, _, e⟩ <;> rw [e] <;> simp [payloads]
+            simp only [hpay, pendL, pendR, List.nil_append]
+            exact ⟨by simpa [payloads, pendL] using hL, by simpa [payloads, pendR] using hR⟩
       · rename_i b hb
         have hse : selElems (select st).2 = b.2 := by simp [selElems, hb]
         split at hnd
@@ -575,12 +626,12 @@ theorem step_term {β : Type} (s : Noir.Start.State) (h : s.missingTerm ≠ 0) (
     ((Noir.Start.step s a).1.missingTerm ≠ 0 ∧ Elem.term ∉ (Noir.Start.step s a).2)
     ∨ ((Noir.Start.step s a).1.missingTerm = 0 ∧ (Noir.Start.step s a).2 = [Elem.term]) := by
   cases a with
-  | timeout => left; simp [Noir.Start.step, h]
+  | timeout => left; simp only [Noir.Start.step, h, if_false]; cases s.pending <;> simp [h]
   | elem r e =>
     cases e with
     | item v => left; simp only [Noir.Start.step, h, if_false]; cases s.pending <;> simp [h]
     | ts v t => left; simp only [Noir.Start.step, h, if_false]; cases s.pending <;> simp [h]
-    | flushBatch => left; simp [Noir.Start.step, h]
+    | flushBatch => left; simp only [Noir.Start.step, h, if_false]; cases s.pending <;> simp [h]
     | wm t =>
       left
       simp only [Noir.Start.step, h, if_false]
@@ -610,33 +661,6 @@ theorem feed_term {β : Type} (r : Nat) (es : List (Elem β)) : ∀ (s : Noir.St
       rw [feed_dead _ h1, h2]
       exact ⟨h1, [], by simp, by simp⟩
 
-theorem selectRecv_start (st : State α) : (selectRecv st).1.start = st.start := by
-  unfold selectRecv
-  split
-  · simp
-  · split
-    · simp
-    · split
-      · split <;> simp
-      · simp
-      · simp
-      · rfl
-
-theorem select_start (st : State α) : (select st).1.start = st.start := by
-  have hp : (prepare st).start = st.start := by unfold prepare; split <;> rfl
-  unfold select
-  split
-  · rfl
-  · rw [← hp]
-    unfold selectBody
-    split
-    · split <;> simp
-    · split
-      · rfl
-      · split
-        · rfl
-        · exact selectRecv_start _
-
 /-- `Terminate` is the last thing a pump returns, at most once, and exactly when it ends `done` -/
 theorem pump_term : ∀ (fuel : Nat) (st : State α), st.start.missingTerm ≠ 0 →
     ((pump fuel st).2.2.2 ≠ .done ∧ (pump fuel st).1.start.missingTerm ≠ 0 ∧ Elem.term ∉ (pump fuel st).2.1)
@@ -653,7 +677,12 @@ theorem pump_term : ∀ (fuel : Nat) (st : State α), st.start.missingTerm ≠ 0
     · left
       split
       · simp [select_start, h]
-      · split <;> simp [select_start, h]
+      · split
+        · simp [select_start, h]
+        · have hlive' : (select st).1.start.missingTerm ≠ 0 := by rw [select_start]; exact h
+          obtain ⟨_, _, t3, ht⟩ := step_timeout (β := Bin α) (select st).1.start hlive'
+          refine ⟨by simp, by simp only; rw [t3]; exact hlive', ?_⟩
+          rcases ht with ⟨_, _, e⟩ | ⟨p, _, _, e⟩ <;> simp only [e] <;> simp
     · rename_i b hb
       have hs : (select st).1.start.missingTerm ≠ 0 := by rw [select_start]; exact h
       rcases feed_term b.1 b.2 _ hs with ⟨f1, f2⟩ | ⟨f1, pre, f2, f3⟩
@@ -780,7 +809,9 @@ theorem feed_plain (r : Nat) (d : List (Elem (Bin α))) (hd : ∀ e ∈ d, plain
       | ts v t =>
         simp only [Noir.Start.step, hs, if_false]
         cases s.pending <;> simp [presented, ofSide, plainE, Elem.isFar, Elem.isTerm]
-      | flushBatch => simp [Noir.Start.step, hs, plainE, Elem.isFar, Elem.isTerm]
+      | flushBatch =>
+        simp only [Noir.Start.step, hs, if_false]
+        cases s.pending <;> simp [presented, ofSide, plainE, Elem.isFar, Elem.isTerm]
       | wm t =>
         simp only [Noir.Start.step, hs, if_false]
         cases (s.frontier.update r t).2 <;> simp [presented, ofSide, plainE, Elem.isFar, Elem.isTerm]
@@ -1049,6 +1080,46 @@ theorem feed_batch (S : Noir.Start.State) (r : Nat) (dd : List (Elem (Bin α))) 
       · rw [f3.1, hmf]; unfold startFar; rw [if_neg (by omega)]
       · rw [f3.2]; simp [h1]
 
+/-! ## Pending watermark announcements -/
+
+theorem step_far_pending {β : Type} (s : Noir.Start.State) (r : Nat) (hs : s.missingTerm ≠ 0)
+    (h1 : s.missingFar - 1 = 0) : (Noir.Start.step s (.elem r (Elem.far : Elem β))).1.pending = none := by
+  simp only [Noir.Start.step, hs, if_false, Noir.Start.afterCounters]
+  simp [h1, hs]
+
+/-- the batch that closes a round leaves no watermark announcement pending -/
+theorem feed_batch_pending (S : Noir.Start.State) (r : Nat) (dd : List (Elem (Bin α))) (nL nR : Nat)
+    (hdd : Clean dd) (hlive : S.missingTerm ≠ 0) (hS : S.missingFar = startFar nL nR 1) :
+    (feed S r (dd ++ [Elem.far])).1.pending = none := by
+  obtain ⟨_, p2, p3, _, _⟩ := feed_plain r dd hdd S hlive
+  rw [feed_append]
+  simp only [feed]
+  apply step_far_pending
+  · rw [p3]; exact hlive
+  · rw [p2, hS]; simp [startFar]
+
+theorem step_term_pending {β : Type} (s : Noir.Start.State) (r : Nat) (hs : s.missingTerm ≠ 0) (hf : s.missingFar ≠ 0) :
+    (Noir.Start.step s (.elem r (Elem.term : Elem β))).1.pending = s.pending := by
+  simp only [Noir.Start.step, hs, if_false, Noir.Start.afterCounters]
+  split <;> simp_all
+
+theorem feed_terms_pending {β : Type} (r : Nat) : ∀ (k : Nat) (s : Noir.Start.State), s.missingFar ≠ 0 →
+    k ≤ s.missingTerm → s.missingTerm ≠ 0 →
+    (feed s r (List.replicate k (Elem.term : Elem β))).1.pending = s.pending := by
+  intro k
+  induction k with
+  | zero => intro s _ _ _; rfl
+  | succ k ih =>
+    intro s hf hk hs
+    obtain ⟨_, t2, t3, _⟩ := step_termE (β := β) s r hs hf
+    have tp := step_term_pending (β := β) s r hs hf
+    simp only [List.replicate_succ, feed]
+    by_cases hlast : s.missingTerm - 1 = 0
+    · have hk0 : k = 0 := by omega
+      subst hk0
+      simpa [feed] using tp
+    · rw [ih _ (by rw [t2]; exact hf) (by rw [t3]; omega) (by rw [t3]; exact hlast), tp]
+
 /-! ## The invariant (left side cached) -/
 
 def farsIn {β : Type} (es : List (Elem β)) : Nat := (es.filter Elem.isFar).length
@@ -1143,6 +1214,8 @@ structure R1Rel (nL nR : Nat) (futL futR : List (Batch α)) (L R : Side α) (fm 
   sf : S.missingFar = startFar nL nR ((nL - fL) + (nR - fR))
   cl : cachedOk nL fL tL (qL ++ futL) = true
   cr : ∃ o, loopOk nR (if fR = nR then 0 else fR) 0 (decide (fR = nR)) (o && decide (fR ≠ nR)) (qR ++ futR) = true
+  /-- once `Start` has closed the round no watermark announcement is pending -/
+  pn : (nL - fL) + (nR - fR) = 0 → S.pending = none
   sh : ∃ rs cur, Shaped (cacheP L) acc rs cur
         ∧ ((nL - fL) + (nR - fR) ≠ 0 → rs = [] ∧ presented true cur = cacheP L)
         ∧ ((nL - fL) + (nR - fR) = 0 → cur = [] ∧ rs ≠ [])
@@ -1160,6 +1233,7 @@ structure WaitRel (nL nR : Nat) (futR : List (Batch α)) (L R : Side α) (fm : B
   fm : fm = true
   sf : S.missingFar = nL + nR
   cr : loopOk nR 0 0 true false (qR ++ futR) = true
+  pn : S.pending = none
   sh : ∃ rs, Shaped (cacheP L) acc rs [] ∧ rs ≠ []
 
 /-- round ≥ 2: `p` cached batches replayed, `fR` loop-side `FlushAndRestart`s consumed -/
@@ -1177,6 +1251,7 @@ structure PlayRel (nL nR : Nat) (futR : List (Batch α)) (L R : Side α) (fm : B
   fm : fm = false
   sf : S.missingFar = startFar nL nR ((nL - farsIn (cacheEls (L.cache.take p))) + (nR - fR))
   cr : loopOk nR (if fR = nR then 0 else fR) 0 true (decide (fR ≠ nR)) (qR ++ futR) = true
+  pn : (nL - farsIn (cacheEls (L.cache.take p))) + (nR - fR) = 0 → S.pending = none
   sh : ∃ rs cur, Shaped (cacheP L) acc rs cur ∧ rs ≠ []
         ∧ ((nL - farsIn (cacheEls (L.cache.take p))) + (nR - fR) ≠ 0 →
               presented true cur = presented true (cacheEls (L.cache.take p)))
@@ -1198,6 +1273,7 @@ structure TermRel (nL nR : Nat) (futR : List (Batch α)) (L R : Side α) (fm : B
   fm : fm = false
   sf : S.missingFar = nL + nR
   cr : loopOk nR 0 t true false (qR ++ futR) = true
+  pn : S.pending = none
   sh : ∃ rs, Shaped (cacheP L) acc rs [] ∧ rs ≠ []
 
 /-- `Terminate` has been returned -/
@@ -1411,11 +1487,25 @@ theorem r1_left {nL nR : Nat} {futL futR : List (Batch α)} {L R : Side α} {fm 
       · rw [List.drop_eq_nil_of_le (by simp; omega)] at hb; simp at hb
   · -- R1Rel
     refine ⟨h.full, by simp, by simp [h.lf]; omega, by simp [h.lt]; omega, by omega, k1, ?_, h.rf, h.rn, h.rt, h.fm,
-            ?_, ?_, h.cr, ?_⟩
+            ?_, ?_, h.cr, ?_, ?_⟩
     · show farsIn (cacheEls (L.cache ++ [_])) = _
       rw [hcacheEls, farsIn_append, farsIn_append, farsIn_clean _ hclean, farsIn_tail, h.cf]; omega
     · rw [g3]; congr 1; omega
     · simpa using k4
+    · -- nothing pending once the round is closed
+      intro h0
+      have hb1 : b2n true = 1 := rfl
+      have hb0 : b2n false = 0 := rfl
+      by_cases hs0 : (nL - fL) + (nR - fR) = 0
+      · have hfl : fL = nL := by have := h.fn; omega
+        rw [hempty hfl]; exact h.pn hs0
+      · have hft : hf = true := by
+          cases hf with
+          | true => rfl
+          | false => exfalso; omega
+        subst hft
+        have hs1' : (nL - fL) + (nR - fR) = 1 := by omega
+        exact feed_batch_pending S r _ nL nR hclean hlive (by rw [h.sf, hs1'])
     · obtain ⟨rs, cur, sh, s1, s2⟩ := h.sh
       have hb1 : b2n true = 1 := rfl
       have hb0 : b2n false = 0 := rfl
@@ -1518,6 +1608,23 @@ theorem right_round {nL nR : Nat} {L R : Side α} {S : Noir.Start.State} {r : Na
   · rw [hrf]; congr 1; omega
   · rw [g5 true, plainR_presented]
 
+theorem right_round_pending {nL nR : Nat} {L R : Side α} {S : Noir.Start.State} {r : Nat} {es : List (Elem α)}
+    {fR : Nat}
+    (c : Common nL nR L R S) (hk : batchKind es = some (true, false)) (hrf : R.missingFar = nR - fR) (hfr : fR < nR)
+    (hS : S.missingFar = startFar nL nR 1) :
+    (feed S (R.process Bin.right Bin.rightEnd r es).2.1.1 (R.process Bin.right Bin.rightEnd r es).2.1.2).1.pending
+      = none := by
+  have hd := plainPart_plain es
+  have hes := batch_split es
+  unfold batchKind at hk
+  obtain ⟨_, p2, _⟩ := procR R r (plainPart es) (es.dropWhile plainE) true c.rc hd hk
+    (by intro _; rw [hrf]; omega)
+  rw [← hes] at p2
+  rw [p2]
+  have hlive : S.missingTerm ≠ 0 := by rw [c.sT]; have := c.nLpos; omega
+  simp only [outR_eq, if_true]
+  exact feed_batch_pending S r _ nL nR (plainR_clean R (plainPart es) true hd) hlive hS
+
 /-- what a closing / non-closing plain batch does to a shaped output whose open round is `cur` -/
 theorem shaped_feed {P acc rs cur} (sh : Shaped (α := α) P acc rs cur) (op : List (Elem (Bin α))) (hop : Clean op)
     (closing : Bool) (hP : closing = true → presented true (cur ++ op) = P) :
@@ -1563,8 +1670,19 @@ theorem r1_right {nL nR : Nat} {futL futR : List (Batch α)} {L R : Side α} {fm
     refine ⟨h.full, h.ptr, h.lf, h.lt, h.tf, h.fn, h.cf, rfl, by
       cases hf
       · simp [b2n]; omega
-      · simp [b2n]; omega, h.rt, h.fm, ?_, h.cl, ?_, ?_⟩
+      · simp [b2n]; omega, h.rt, h.fm, ?_, h.cl, ?_, ?_, ?_⟩
     · rw [g3]; congr 1; omega
+    rotate_left 1
+    · intro h0
+      have hb1 : b2n true = 1 := rfl
+      have hb0 : b2n false = 0 := rfl
+      have hft : hf = true := by
+        cases hf with
+        | true => rfl
+        | false => exfalso; omega
+      subst hft
+      exact right_round_pending c hk h.rf hfr (by rw [h.sf]; congr 1; omega)
+    rotate_left 1
     · -- the loop side's contract after this batch
       by_cases hw : hf = true ∧ fR + 1 = nR
       · obtain ⟨e1, e2⟩ := hw
@@ -1654,8 +1772,20 @@ theorem play_right {nL nR : Nat} {futL futR : List (Batch α)} {L R : Side α} {
     refine ⟨h.full, h.ptr, h.pl, h.lf, h.lt, h.cf, rfl, by
       cases hf
       · simp [b2n]; omega
-      · simp [b2n]; omega, h.rt, h.fm, ?_, ?_, ?_⟩
+      · simp [b2n]; omega, h.rt, h.fm, ?_, ?_, ?_, ?_⟩
     · rw [g3, hfull]; congr 1; omega
+    rotate_left 1
+    · rw [hfull]
+      intro h0
+      have hb1 : b2n true = 1 := rfl
+      have hb0 : b2n false = 0 := rfl
+      have hft : hf = true := by
+        cases hf with
+        | true => rfl
+        | false => exfalso; omega
+      subst hft
+      exact right_round_pending c hk h.rf hfr (by rw [hsf]; congr 1; omega)
+    rotate_left 1
     · by_cases hw : hf = true ∧ fR + 1 = nR
       · obtain ⟨e1, e2⟩ := hw
         subst e1
@@ -1717,6 +1847,17 @@ theorem right_term {nL nR : Nat} {L R : Side α} {S : Noir.Start.State} {r t : N
   · rw [g3, c.sT, hrt]; have := c.nLpos; omega
   · rw [g4, if_neg]; rw [c.sT, hrt]; have := c.nLpos; omega
 
+theorem right_term_pending {nL nR : Nat} {L R : Side α} {S : Noir.Start.State} {r t : Nat}
+    (c : Common nL nR L R S) (hrt : R.missingTerm = nR - t) (ht : t < nR) (hsf : S.missingFar = nL + nR) :
+    (feed S (R.process Bin.right Bin.rightEnd r [Elem.term]).2.1.1
+          (R.process Bin.right Bin.rightEnd r [Elem.term]).2.1.2).1.pending = S.pending := by
+  obtain ⟨_, p2, _⟩ := procRterm R r c.rc (by rw [hrt]; omega)
+  rw [p2]
+  have hlive : S.missingTerm ≠ 0 := by rw [c.sT]; have := c.nLpos; omega
+  have hf0 : S.missingFar ≠ 0 := by rw [hsf]; have := c.nLpos; omega
+  have := feed_terms_pending (β := Bin α) r 1 S hf0 (by omega) hlive
+  simpa using this
+
 /-- between two rounds, the first loop-side batch arrives: a new round is opened, or the loop has ended -/
 theorem wait_first {nL nR : Nat} {futL futR : List (Batch α)} {L R : Side α} {fm : Bool}
     {qL q : List (Batch α)} {S : Noir.Start.State} {acc : List (Elem (Bin α))} {r : Nat} {es : List (Elem α)}
@@ -1749,7 +1890,8 @@ theorem wait_first {nL nR : Nat} {futL futR : List (Batch α)} {L R : Side α} {
     · exact ⟨c.nLpos, c.nRpos, c.lc, c.rc, c.li, c.ri, c.rcache, c.rptr, g1, by rw [g2]; exact c.sT, c.shapes, c.post, c.mark⟩
     · have hb : b2n hf ≤ 1 := by cases hf <;> simp [b2n]
       have htake0 : farsIn (cacheEls (L.cache.take 0)) = 0 := by simp [cacheEls, farsIn]
-      refine ⟨h.full, h.ptr, by omega, by rw [h.lf, if_neg (by omega)], h.lt, h.cf, rfl, by omega, h.rt, rfl, ?_, ?_, ?_⟩
+      refine ⟨h.full, h.ptr, by omega, by rw [h.lf, if_neg (by omega)], h.lt, h.cf, rfl, by omega, h.rt, rfl, ?_, ?_,
+        (by intro h0; rw [htake0] at h0; omega), ?_⟩
       · rw [g3, htake0]; congr 1; omega
       · by_cases hw : hf = true ∧ 0 + 1 = nR
         · obtain ⟨e1, e2⟩ := hw
@@ -1782,6 +1924,7 @@ theorem wait_first {nL nR : Nat} {futL futR : List (Batch α)} {L R : Side α} {
     apply InvC.term 1
     · exact ⟨c.nLpos, c.nRpos, c.lc, c.rc, c.li, c.ri, c.rcache, c.rptr, g1, g3, c.shapes, c.post, c.mark⟩
     · exact ⟨by omega, by omega, h.full, h.ptr, h.lf, h.lt, hlen, h.cf, h.rf, rfl, rfl, g2, hnext,
+             by rw [right_term_pending (r := r) (t := 0) c (by rw [h.rt]; rfl) hnR h.sf]; exact h.pn,
              rs, by simpa using sh, hne0⟩
 
 /-- the loop has ended, one more loop-side `Terminate` arrives -/
@@ -1805,6 +1948,7 @@ theorem term_right {nL nR : Nat} {futL futR : List (Batch α)} {L R : Side α} {
     apply InvC.term (t + 1)
     · exact ⟨c.nLpos, c.nRpos, c.lc, c.rc, c.li, c.ri, c.rcache, c.rptr, g1, g3, c.shapes, c.post, c.mark⟩
     · exact ⟨by omega, by omega, h.full, h.ptr, h.lf, h.lt, h.clen, h.cf, h.rf, rfl, h.fm, g2, hnext,
+             by rw [right_term_pending (r := r) (t := t) c h.rt htn h.sf]; exact h.pn,
              rs, by simpa using sh, hne0⟩
 
 /-- all loop-side `Terminate`s have been seen: the synthetic batch ends the stream -/
@@ -1873,14 +2017,41 @@ theorem play_replay {nL nR : Nat} {futL futR : List (Batch α)} {L R : Side α} 
     · simp [hl]
     · have : ¬ (L.cache.length ≤ p + 1) := by omega
       simp [this, hl, h.lf]; omega
+  have hemptyb : (nL - farsIn (cacheEls (L.cache.take p))) + (nR - fR) = 0 → hf = false ∧ dd = [] := by
+    intro hs0
+    have hfull : farsIn (cacheEls (L.cache.take p)) = nL := by
+      have := farsIn_take_le L.cache p; rw [h.cf] at this; omega
+    have hmd : L.cache.getD p (0, []) ∈ L.cache.drop p := by
+      have hd : L.cache.drop p = L.cache[p] :: L.cache.drop (p + 1) := List.drop_eq_getElem_cons hp
+      rw [List.getD_eq_getElem?_getD, List.getElem?_eq_getElem hp]
+      show L.cache[p] ∈ L.cache.drop p
+      rw [hd]; exact List.mem_cons_self
+    have hemp := c.post p hfull _ hmd
+    have hf0 : hf = false := by cases hf <;> simp [b2n] at hle ⊢; omega
+    subst hf0
+    exact ⟨rfl, by rw [hb2] at hemp; simpa using hemp⟩
   apply InvC.play (p + 1) fR
   · exact ⟨c.nLpos, c.nRpos, by simp [c.lc], c.rc, by simp [Side.nextCached]; split <;> exact c.li, c.ri, c.rcache, c.rptr,
       g1, by rw [g2]; exact c.sT, by rw [hL1]; exact c.shapes, by rw [hL1]; exact c.post, by rw [hL1]; exact c.mark⟩
   · obtain ⟨rs, cur, sh, hne0, s1, s2⟩ := h.sh
     have hPeq : cacheP L.nextCached.1 = cacheP L := by simp [cacheP]
     refine ⟨by rw [nextCached_full]; exact h.full, hptr, by rw [hL1]; omega, by rw [hL1]; exact hmf,
-      by simp [h.lt], by rw [hL1]; exact h.cf, h.rf, h.rn, h.rt, h.fm, ?_, h.cr, ?_⟩
+      by simp [h.lt], by rw [hL1]; exact h.cf, h.rf, h.rn, h.rt, h.fm, ?_, h.cr, ?_, ?_⟩
     · rw [g3, hL1, hfars]; congr 1; omega
+    · rw [hL1, hfars]
+      intro h0
+      have hb1 : b2n true = 1 := rfl
+      have hb0 : b2n false = 0 := rfl
+      by_cases hs0 : (nL - farsIn (cacheEls (L.cache.take p))) + (nR - fR) = 0
+      · obtain ⟨e1, e2⟩ := hemptyb hs0
+        subst e1; subst e2
+        simpa [feed] using h.pn hs0
+      · have hft : hf = true := by
+          cases hf with
+          | true => rfl
+          | false => exfalso; omega
+        subst hft
+        exact feed_batch_pending S _ dd nL nR hdd hlive (by rw [h.sf]; congr 1; omega)
     · rw [hL1, hPeq, hfars]
       by_cases hs0 : (nL - farsIn (cacheEls (L.cache.take p))) + (nR - fR) = 0
       · -- the round is closed already: the rest of the cache is empty
@@ -1964,7 +2135,7 @@ theorem r1_to_wait {nL nR : Nat} {futL futR : List (Batch α)} {L R : Side α} {
   obtain ⟨rs, cur, sh, _, s2⟩ := h.sh
   obtain ⟨e1, e2⟩ := s2 (by omega)
   subst e1
-  refine ⟨rfl, rfl, c.li, by rw [h.lt]; omega, by rw [h.cf, hfl], c.ri, h.rt, rfl, ?_, ?_, rs, sh, e2⟩
+  refine ⟨rfl, rfl, c.li, by rw [h.lt]; omega, by rw [h.cf, hfl], c.ri, h.rt, rfl, ?_, ?_, h.pn (by omega), rs, sh, e2⟩
   · rw [h.sf]; unfold startFar; rw [if_pos (by omega)]
   · simpa [h2] using hcr
 
@@ -1981,7 +2152,7 @@ theorem play_to_wait {nL nR : Nat} {futR : List (Batch α)} {L R : Side α} {fm 
   obtain ⟨rs, cur, sh, hne0, _, s2⟩ := h.sh
   have e1 := s2 (by rw [hfull]; omega)
   subst e1
-  refine ⟨rfl, rfl, c.li, h.lt, h.cf, c.ri, h.rt, rfl, ?_, ?_, rs, sh, hne0⟩
+  refine ⟨rfl, rfl, c.li, h.lt, h.cf, c.ri, h.rt, rfl, ?_, ?_, h.pn (by rw [hfull]; omega), rs, sh, hne0⟩
   · rw [h.sf, hfull]; unfold startFar; rw [if_pos (by omega)]
   · simpa [h2] using h.cr
 
@@ -2304,6 +2475,46 @@ theorem inv_select {nL nR : Nat} {futL futR : List (Batch α)} {acc : List (Elem
   | term t c h => exact iter_term st c h
   | fin h => exact absurd h.dead hlive
 
+/-- the protocol's receive timeout preserves the invariant: at most a pending watermark announcement
+    joins the open round -/
+theorem inv_timeout {nL nR : Nat} {futL futR : List (Batch α)} {L R : Side α} {fm : Bool}
+    {qL qR : List (Batch α)} {S : Noir.Start.State} {acc : List (Elem (Bin α))}
+    (h : InvC nL nR futL futR L R fm qL qR S acc) (hlive : S.missingTerm ≠ 0) :
+    InvC nL nR futL futR L R fm qL qR
+      (Noir.Start.step S (Noir.Start.Arrival.timeout : Noir.Start.Arrival (Bin α))).1
+      (acc ++ (Noir.Start.step S (Noir.Start.Arrival.timeout : Noir.Start.Arrival (Bin α))).2.dropLast) := by
+  obtain ⟨t1, t2, t3, ht⟩ := step_timeout (β := Bin α) S hlive
+  rcases ht with ⟨_, e1, e2⟩ | ⟨p, hp, e1, e2⟩
+  · rw [e1, e2, List.append_nil]; exact h
+  · rw [e2]
+    have hwm : Clean [(Elem.wm p : Elem (Bin α))] := by
+      intro e he; simp at he; subst he; simp [plainE, Elem.isFar, Elem.isTerm]
+    have hpw : ∀ cur : List (Elem (Bin α)), presented true (cur ++ [Elem.wm p]) = presented true cur := by
+      intro cur; simp [presented, ofSide]
+    cases h with
+    | r1 fL tL fR c h =>
+      have hs : (nL - fL) + (nR - fR) ≠ 0 := fun h0 => by rw [h.pn h0] at hp; cases hp
+      obtain ⟨rs, cur, sh, s1, s2⟩ := h.sh
+      refine InvC.r1 fL tL fR
+        ⟨c.nLpos, c.nRpos, c.lc, c.rc, c.li, c.ri, c.rcache, c.rptr, by rw [t1]; exact c.sn, by rw [t3]; exact c.sT,
+         c.shapes, c.post, c.mark⟩
+        ⟨h.full, h.ptr, h.lf, h.lt, h.tf, h.fn, h.cf, h.rf, h.rn, h.rt, h.fm, by rw [t2]; exact h.sf, h.cl, h.cr,
+         fun _ => e1, rs, cur ++ [Elem.wm p], sh.open_ _ hwm,
+         fun hne => ⟨(s1 hne).1, by rw [hpw]; exact (s1 hne).2⟩, fun h0 => absurd h0 hs⟩
+    | wait c h => rw [h.pn] at hp; cases hp
+    | play q fR c h =>
+      have hs : (nL - farsIn (cacheEls (L.cache.take q))) + (nR - fR) ≠ 0 := fun h0 => by
+        rw [h.pn h0] at hp; cases hp
+      obtain ⟨rs, cur, sh, hne0, s1, s2⟩ := h.sh
+      refine InvC.play q fR
+        ⟨c.nLpos, c.nRpos, c.lc, c.rc, c.li, c.ri, c.rcache, c.rptr, by rw [t1]; exact c.sn, by rw [t3]; exact c.sT,
+         c.shapes, c.post, c.mark⟩
+        ⟨h.full, h.ptr, h.pl, h.lf, h.lt, h.cf, h.rf, h.rn, h.rt, h.fm, by rw [t2]; exact h.sf, h.cr,
+         fun _ => e1, rs, cur ++ [Elem.wm p], sh.open_ _ hwm, hne0,
+         fun hne => by rw [hpw]; exact s1 hne, fun h0 => absurd h0 hs⟩
+    | term t c h => rw [h.pn] at hp; cases hp
+    | fin h => exact absurd h.dead hlive
+
 theorem pump_inv {nL nR : Nat} {futL futR : List (Batch α)} : ∀ (fuel : Nat) (st : State α)
     (acc : List (Elem (Bin α))), Inv nL nR futL futR st acc →
     Inv nL nR futL futR (pump fuel st).1 (acc ++ (pump fuel st).2.1) ∧ (pump fuel st).2.2.2 ≠ .panic := by
@@ -2327,7 +2538,8 @@ theorem pump_inv {nL nR : Nat} {futL futR : List (Batch α)} : ∀ (fuel : Nat) 
         rw [← hst] at this
         split
         · simp; exact this
-        · simp; exact this
+        · refine ⟨?_, by simp⟩
+          exact inv_timeout this (by rw [hst]; exact hlive)
       · rename_i b hb
         have := s3 b hb
         rw [← hst] at this
@@ -2345,7 +2557,7 @@ theorem inv_enq_left {nL nR : Nat} {futL futR : List (Batch α)} {acc : List (El
   cases h with
   | r1 fL tL fR c h =>
     exact InvC.r1 fL tL fR c ⟨h.full, h.ptr, h.lf, h.lt, h.tf, h.fn, h.cf, h.rf, h.rn, h.rt, h.fm, h.sf,
-      by rw [List.append_assoc]; exact h.cl, h.cr, h.sh⟩
+      by rw [List.append_assoc]; exact h.cl, h.cr, h.pn, h.sh⟩
   | wait c h => exact InvC.wait c h
   | play p fR c h => exact InvC.play p fR c h
   | term t c h => exact InvC.term t c h
@@ -2359,16 +2571,16 @@ theorem inv_enq_right {nL nR : Nat} {futL futR : List (Batch α)} {acc : List (E
   | r1 fL tL fR c h =>
     obtain ⟨o, ho⟩ := h.cr
     exact InvC.r1 fL tL fR c ⟨h.full, h.ptr, h.lf, h.lt, h.tf, h.fn, h.cf, h.rf, h.rn, h.rt, h.fm, h.sf,
-      h.cl, ⟨o, by rw [List.append_assoc]; exact ho⟩, h.sh⟩
+      h.cl, ⟨o, by rw [List.append_assoc]; exact ho⟩, h.pn, h.sh⟩
   | wait c h =>
     exact InvC.wait c ⟨h.full, h.ptr, h.lf, h.lt, h.cf, h.rf, h.rt, h.fm, h.sf,
-      by rw [List.append_assoc]; exact h.cr, h.sh⟩
+      by rw [List.append_assoc]; exact h.cr, h.pn, h.sh⟩
   | play p fR c h =>
     exact InvC.play p fR c ⟨h.full, h.ptr, h.pl, h.lf, h.lt, h.cf, h.rf, h.rn, h.rt, h.fm, h.sf,
-      by rw [List.append_assoc]; exact h.cr, h.sh⟩
+      by rw [List.append_assoc]; exact h.cr, h.pn, h.sh⟩
   | term t c h =>
     exact InvC.term t c ⟨h.t1, h.tn, h.full, h.ptr, h.lf, h.lt, h.clen, h.cf, h.rf, h.rt, h.fm, h.sf,
-      by rw [List.append_assoc]; exact h.cr, h.sh⟩
+      by rw [List.append_assoc]; exact h.cr, h.pn, h.sh⟩
   | fin h => exact InvC.fin h
 
 /-- **the invariant holds along every contract-respecting history** -/
@@ -2411,7 +2623,7 @@ theorem inv_init {nL nR : Nat} (ops : List (Op α)) (h : contractL nL nR ops = t
       simp [init, Side.init, cacheEls, markers, farsIn, this]
   · have hs : (nL - 0) + (nR - 0) ≠ 0 := by omega
     refine ⟨rfl, rfl, rfl, rfl, Nat.le_refl _, Nat.zero_le _, by simp [init, Side.init, cacheEls, farsIn],
-      rfl, Nat.zero_le _, rfl, rfl, ?_, by simpa [init] using hcl, ⟨false, ?_⟩, [], [], ?_, ?_, ?_⟩
+      rfl, Nat.zero_le _, rfl, rfl, ?_, by simpa [init] using hcl, ⟨false, ?_⟩, fun _ => rfl, [], [], ?_, ?_, ?_⟩
     · simp only [init, Noir.Start.init, startFar]; rw [if_neg hs]; omega
     · have : (0 : Nat) ≠ nR := by omega
       simpa [init, this] using hcr
